@@ -28,14 +28,14 @@ MANIFEST = {
             'finished at that instant keeps state, state_info, output; nothing is reported), '
             'succeed_keeps_finished (full since repo fix ce9b9520), *_state_output_together, cac_succeed_atomic, '
             'cac_succeed_keeps_finished (the race of the completion check with a concurrent stop(SUCCESS) found here is '
-            'closed by repo fix ce9b9520: full theorem) and cac_one_party (full since repo patch 25 repeats the paused-or-'
+            'closed by repo fix ce9b9520: full theorem) and cac_one_party (full since repo fix 3b5c318a repeats the paused-or-'
             'completed guard after expire_all; before it an execution PAUSED during its completion check was force-failed '
             'to ERROR: _full_fails witness kept as regression example). Tie B: race-wf stream = the '
             'REAL completion / stop transactions with the REAL stop / pause / second completion check of another session '
             'committed at every pre-lock SQL statement (statement tap), final row + write statements + exception equal '
             'Mistral.Race.runWith on the generated script; monitor: a finished row is never altered, (state, output) come '
             'from one party. ACTION RESULT ACCEPTANCE (Props.C03RaceAction over the regenerated script of '
-            'on_action_complete -> RegularAction.complete, which since repo patch 26 accepts the result through '
+            'on_action_complete -> RegularAction.complete, which since repo fix fdb9cc00 accepts the result through '
             'update_action_execution_state = update_on_match on the state read): action_complete_atomic, action_accept_once '
             '(a completed action execution is never touched, nothing is handed to the task; before the patch this was '
             '_full_fails: two results handled concurrently were both accepted), action_state_output_together; tie: '
@@ -88,9 +88,11 @@ def correspond(ctx):
     # completion check of another process committed at every pre-lock statement gap (SQL tap)
     par.run_parallel(ctx, 'harness.race_driver', 'run_chunk', RACE_CHUNKS)
     par.run_parallel(ctx, 'harness.engine_stream', 'run_chunk',
-                     [{'n_programs': ctx.n(8, 180), 'props': ['C03'], 'mode': 'plain'}] * 5 +
-                     [{'n_programs': ctx.n(8, 180), 'props': ['C03'], 'mode': 'ops'}] * 9)
-    par.run_parallel(ctx, 'harness.core_stream', 'run_chunk', [{'n_programs': ctx.n(8, 150), 'mode': 'mixed'}] * 14)
+                     [{'n_programs': ctx.n(8, 60), 'props': ['C03'], 'mode': 'plain'}] * 5 +
+                     [{'n_programs': ctx.n(8, 60), 'props': ['C03'], 'mode': 'ops'}] * 9)
+    par.run_parallel(ctx, 'harness.core_stream', 'run_chunk', [{'n_programs': ctx.n(8, 50), 'mode': 'mixed'}] * 14)
+    # (thorough populations 250 / 200 per chunk needed > 10 CPU-hours: the 60-minute budget was exceeded; 60 / 50
+    #  keep the tier at about 3 CPU-hours)
 
 
 def search(ctx):
